@@ -93,12 +93,12 @@ CLAIMED = {
         category="proof",
         text="Per-call contract of the real request_profile over a ghost file system and an abstract parser: the request carries the date of the profile held (none when nothing is cached); 'up to date' returns the cached bytes and leaves the cache untouched; a status-0 response is accepted only if not older than the one held, is written whole and returned; every failing path (transport failure, garbage, error status, 'up to date' with nothing cached, older profile) raises before the cache file is opened for writing and only for one of these reasons; dry runs write nothing; the only files a call writes are the institution's own cache entry or files whose name is derived from it / depends on ORG and FID (per-path ghost file system with os.replace). The induction step over sequential histories (invariant preserved, never back to an older profile, a failing call changes nothing, success returns the profile then held) is machine-checked over a transcription of the contract's clauses.",
         design_ref="DESIGN.md 9 (C15)",
-        note="NOT DECIDED by this technique family (no contract within reach, nothing substituted): a crash between open(...,'wb') and the completed write; interleavings of the truncate/write steps of concurrent request_profile calls. Decided of the concurrency clause: a rely/guarantee variant of the per-call contract (every read of the cache file returns unconstrained content) proves that a successful call returns and writes only bytes it has itself parsed as a whole profile. The contract holds for either value of the persist option. Known findings: cache key <org>-<fid> ignores the URL and is not injective. The induction principle itself and the base case are not formalised; the bounded companion enumerates all histories of length <= 3 (4 thorough) over 8 server behaviours with client restarts on a real cache file.",
+        note="NOT DECIDED by this technique family (no contract within reach, nothing substituted): a crash between open(...,'wb') and the completed write; interleavings of the truncate/write steps of concurrent request_profile calls. Decided of the concurrency clause: a rely/guarantee variant of the per-call contract (every read of the cache file returns unconstrained content) proves that a successful call returns and writes only bytes it has itself parsed as a whole profile. The contract holds for either value of the persist option. Known findings: cache key <org>-<fid> ignores the URL and is not injective. The induction principle itself and the base case are not formalised; a census of ofxtools/Client.py shows that no function of the client module shares an object between its calls (module-level rebinding, memo decorators, objects built once as default arguments); the bounded companion enumerates all histories of length <= 3 (4 thorough) over 8 server behaviours with client restarts on a real cache file.",
         technique="contract with ghost file state and abstract parser (pyvc + z3); bounded enumeration of histories on real files",
         engine="pyvc"),
     "C06": dict(
         category="proof",
-        text="Proved on the real code with the model classes really instantiated and converters abstract: signon stores exactly the supplied password and user id, the configured language/appid/appver, FI iff ORG is set, CLIENTUID iff configured and version >= 103 (version symbolic 100..299); each of the five transaction-wrapper builders routes every argument to its own element (INCTRAN absent iff transactions are not asked for investment statements) and sets a transaction id; each wrap_stmtrq arm yields one wrapper per request, in order, carrying that request's fields and the client's bank/broker id; __init__ and serialize refuse close_elements=False for versions >= 200; serialize passes the configured or overridden version to make_header and chooses the body form by close_elements. request_statements' assembly (sort by kind, group, wrap, message sets, OFX) is proved for seven orders of request kinds with every field symbolic and the per-kind wrapping abstract: the OFX handed to download() holds exactly one wrapper per request, in the message set of its kind, requests of one kind in the order given, and the sign-on built from the password. The wire round trip is covered by a bounded composition run parsed back by the library.",
+        text="Proved on the real code with the model classes really instantiated and converters abstract: signon stores exactly the supplied password and user id, the configured language/appid/appver, FI iff ORG is set, CLIENTUID iff configured and version >= 103 (version symbolic 100..299); each of the five transaction-wrapper builders routes every argument to its own element (INCTRAN absent iff transactions are not asked for investment statements) and sets a transaction id; each wrap_stmtrq arm yields one wrapper per request, in order, carrying that request's fields and the client's bank/broker id; __init__ and serialize refuse close_elements=False for versions >= 200; serialize passes the configured or overridden version to make_header and chooses the body form by close_elements. request_statements' assembly (sort by kind, group, wrap, message sets, OFX) is proved for seven orders of request kinds with every field symbolic and the per-kind wrapping abstract: the OFX handed to download() holds exactly one wrapper per request, in the message set of its kind, requests of one kind in the order given, and the sign-on built from the password. request_accounts hands ACCTINFORQ the caller's date as it is. The wire round trip is covered by a bounded composition run parsed back by the library (statement requests and the account-information request).",
         design_ref="DESIGN.md 9 (C06)",
         note="request_statements' assembly is proved per pattern of request kinds (seven patterns, up to six requests), not for arbitrary lengths; bounded composition run: 11 versions x pretty x close_elements x ORG/FID x CLIENTUID x request multisets with credentials/ids incl. & < > quotes and non-ASCII, dates with offsets, all flags. A-UUID: uuid4 ids are distinct. Known finding KF-C01-unclosed-empty-aggregate shared with C01.",
         technique="contracts on the real builders with heap model instances and abstract converters (pyvc + z3); bounded compose-and-parse-back run",
